@@ -179,12 +179,14 @@ func universe(nib, keylen int) (keys [][]byte, nibs [][]int) {
 // recorded in this mode are validated on the observables only).
 var tiny bool
 
-// value id -> 32-byte value and (for every third id) metadata; values of >= 32 bytes make every full node hashed
+// value id -> value of 26..33 bytes (leaf encodings of 31, 32 and 33 bytes occur: the embed-or-hash threshold) and,
+// for every third id, metadata.  A full node has at least two children of >= 29 encoded bytes, so its own encoding
+// is >= 32 bytes and every full node is hashed, i.e. stored standalone (Hashed == TRUE in NodeStore.tla).
 func valBytes(id int) []byte {
 	if tiny {
 		return []byte{byte(id)}
 	}
-	b := bytes.Repeat([]byte{byte(0xA0 + id%7)}, 32)
+	b := bytes.Repeat([]byte{byte(0xA0 + id%7)}, 26+id%8)
 	binary.BigEndian.PutUint16(b, uint16(id))
 	return b
 }
@@ -204,7 +206,7 @@ func decodeVal(val, meta []byte) int {
 		}
 		return int(val[0])
 	}
-	if len(val) != 32 {
+	if len(val) < 26 || len(val) > 33 {
 		return 9999
 	}
 	id := int(binary.BigEndian.Uint16(val))
@@ -345,15 +347,16 @@ type change struct {
 	val  int
 }
 
-// refHash: root hash of a fresh trie holding exactly this content (canonical commitment of the set)
+// refHash: the canonical Merkle-Patricia commitment of exactly this content, computed by the reference hasher of
+// refhash.go (independent of package trie)
 func refHash(keys [][]byte, content map[string]int) thor.Bytes32 {
-	t := muxdb.NewMem().NewTrie("ref", trie.Root{})
+	kv := map[string][]byte{}
 	for _, k := range keys {
 		if id := content[string(k)]; id != 0 {
-			must(t.Update(k, valBytes(id), metaBytes(id)))
+			kv[string(k)] = valBytes(id)
 		}
 	}
-	return t.Hash()
+	return refRoot(kv)
 }
 
 var skipRootHash = thor.BytesToBytes32([]byte{1}) // as chain.BlockSummary.IndexRoot: any non-zero hash
